@@ -251,6 +251,31 @@ def r4_completeness_and_tables(ctx):
                 if isinstance(x, (ast.Continue, ast.Break)):
                     ok = False
     ctx.check(ok, bf.qual, "one file name per (bucket, format)" if ok else "build_filenames does not emit exactly one name per requested (bucket, format)", where=bf, node=apps[0] if apps else bf.node)
+    # every written file is reported: accumulated per bucket in a mapping, all entries used
+    sf = ctx.func(f"{OU}:save_to_files")
+    acc = None
+    for c in calls_in(sf.node):
+        if isinstance(c.func, ast.Attribute) and c.func.attr == "append" and isinstance(c.func.value, ast.Subscript) and dotted(c.func.value.slice) == "bucket_name":
+            acc = dotted(c.func.value.value)
+            lp_ = enclosing_loop(c)
+            okp = isinstance(lp_, ast.For) and dotted(lp_.iter) == "filenames" and not enclosing_tests(c, stop=lp_)
+            ctx.check(okp, sf.qual + "#report-every-file", "every written file is recorded under its bucket" if okp else "not every written file is recorded for the report", where=sf, node=c)
+    if acc is None:
+        ctx.fail(sf.qual + "#report-every-file", "written files are not accumulated in a per-bucket mapping (entries of one bucket requested in several places can be lost from the report)", where=sf, node=sf.node)
+    else:
+        ad = [v for s_, v in local_defs(sf, acc) if v is not None]
+        okd = len(ad) == 1 and norm(ad[0]) in ("defaultdict(list)", "collections.defaultdict(list)")
+        comp = [d_ for d_ in ast.walk(sf.node) if isinstance(d_, ast.DictComp) and norm(d_.generators[0].iter) == f"{acc}.items()" and not d_.generators[0].ifs]
+        ctx.check(okd and bool(comp), sf.qual + "#report-all-buckets", "the report is built from every accumulated bucket entry" if okd and comp else "the report is not built from all accumulated entries", where=sf, node=comp[0] if comp else sf.node)
+    for fn in ctx.repo.all_functions():
+        if fn.module.name not in (OU, OO):
+            continue
+        for c in calls_in(fn.node):
+            ext = ctx.repo.external_name(fn.module, c.func) or call_name(c)
+            if ext.endswith("groupby") and ext.startswith(("itertools", "groupby")) and c.args:
+                src = expand(fn, c.args[0])
+                sorted_ok = isinstance(src, ast.Call) and call_name(src) == "sorted" and norm(kw(src, "key")) == norm(kw(c, "key") or (c.args[1] if len(c.args) > 1 else None))
+                ctx.check(sorted_ok, f"{fn.qual}#groupby", "groupby over data sorted by the same key" if sorted_ok else "itertools.groupby over unsorted data only merges adjacent entries: non-adjacent entries of one bucket overwrite each other in the report", where=fn, node=c)
     n = 0
     want = {"fits": "to_fits", "hdf": "to_hdf", "npy": "to_npy", "txt": "to_txt", "csv": "to_csv", "png": "to_png", "jpg": "to_jpg", "jpeg": "to_jpg"}
     for f in ctx.repo.all_functions():
